@@ -12,7 +12,11 @@ RELATED = {'C01-m1':['C01','C17'],'C01-m2':['C01','C14'],'C02-m1':['C02','C01'],
  'C01-m3':['C01','C02','C14'],'C01-m4':['C01','C02'],'C02-m3':['C02','C01'],'C02-m4':['C02','C14'],'C03-m3':['C03','C02'],'C03-m4':['C03'],'C04-m3':['C04'],'C04-m4':['C04','C11'],
  'C05-m3':['C05','C06'],'C05-m4':['C05','C07'],'C06-m3':['C06','C15'],'C06-m4':['C06','C05'],'C07-m3':['C07','C14'],'C07-m4':['C07','C10'],'C10-m3':['C10','C11'],'C10-m4':['C10','C07'],
  'C11-m3':['C11','C20'],'C11-m4':['C11','C10'],'C14-m3':['C14','C07'],'C14-m4':['C14','C07'],'C15-m3':['C15','C06'],'C15-m4':['C15','C06'],'C16-m3':['C16','C04'],'C16-m4':['C16'],
- 'C17-m3':['C17','C01'],'C17-m4':['C17','C01'],'C18-m3':['C18'],'C18-m4':['C18'],'C19-m3':['C19'],'C19-m4':['C19'],'C20-m3':['C20','C11'],'C20-m4':['C20']}
+ 'C17-m3':['C17','C01'],'C17-m4':['C17','C01'],'C18-m3':['C18'],'C18-m4':['C18'],'C19-m3':['C19'],'C19-m4':['C19'],'C20-m3':['C20','C11'],'C20-m4':['C20'],
+ 'C01-m5':['C01','C12','C14'],'C01-m6':['C01','C02'],'C02-m5':['C02','C12','C14'],'C02-m6':['C02','C01'],'C03-m5':['C03','C06','C05'],'C03-m6':['C03'],'C04-m5':['C04'],'C04-m6':['C04','C01'],
+ 'C05-m5':['C05','C06'],'C05-m6':['C05','C15'],'C06-m5':['C06','C15'],'C06-m6':['C06','C15'],'C07-m5':['C07'],'C07-m6':['C07','C20'],'C10-m5':['C10','C07'],'C10-m6':['C10'],
+ 'C11-m5':['C11'],'C11-m6':['C11'],'C12-m5':['C12','C01'],'C12-m6':['C12'],'C13-m5':['C13'],'C13-m6':['C13'],'C14-m5':['C14'],'C14-m6':['C14','C12'],'C15-m5':['C15'],'C15-m6':['C15','C06','C02'],
+ 'C16-m5':['C16','C07'],'C16-m6':['C16','C07'],'C17-m5':['C17','C04'],'C17-m6':['C17'],'C18-m5':['C18'],'C18-m6':['C18'],'C19-m5':['C19'],'C19-m6':['C19'],'C20-m5':['C20'],'C20-m6':['C20','C11']}
 def one(d):
     name=os.path.basename(d)
     meta=json.load(open(os.path.join(d,'meta.json')))
